@@ -194,6 +194,19 @@ def apply_model(m, op):
         y0 = (sid // 16) * 8
         return [[m.px(x, y) if x < 128 and y < 128 else 0 for x in range(x0, x0 + tw * 8)]
                 for y in range(y0, y0 + th * 8)]
+    if name == 'edit_sprite':
+        sid, tw, th, r, c, v, dst = a
+        x0 = (sid % 16) * 8
+        y0 = (sid // 16) * 8
+        rows = [[m.px(x, y) if x < 128 and y < 128 else 0 for x in range(x0, x0 + tw * 8)]
+                for y in range(y0, y0 + th * 8)]
+        rows[r][c] = v                      # one pixel of one row; the rows of a result are independent
+        dx, dy = (dst % 16) * 8, (dst // 16) * 8
+        for j, row in enumerate(rows):
+            for i, pv in enumerate(row):
+                if dx + i < 128 and dy + j < 128:
+                    m.set_px(dx + i, dy + j, pv)
+        return NOTHING
     if name == 'set_cell':
         m.set_cell(a[0], a[1], a[2])
         return NOTHING
@@ -295,6 +308,9 @@ def assert_contract(op):
               all(_isint(v, 0, 16) for r in a[1] for v in r) and a[4] in WRAPS)
     elif name == 'get_sprite':
         ok = _isint(a[0], 0, 255) and _isint(a[1], 1, 1 << 10) and _isint(a[2], 1, 1 << 10)
+    elif name == 'edit_sprite':
+        ok = (_isint(a[0], 0, 255) and _isint(a[1], 1, 32) and _isint(a[2], 1, 32) and _isint(a[3], 0, a[2] * 8 - 1) and
+              _isint(a[4], 0, a[1] * 8 - 1) and _isint(a[5], 0, 15) and _isint(a[6], 0, 255))
     elif name == 'set_cell':
         ok = _isint(a[0], 0, 127) and _isint(a[1], 0, 63) and _isint(a[2], 0, 255)
     elif name == 'get_cell':
@@ -343,6 +359,10 @@ def _wrap_rows(rows, wrap):
         return [iter(list(r)) for r in rows]
     if wrap == 'reversed':
         return reversed([reversed(list(reversed(r))) for r in reversed(list(rows))])
+    if wrap == 'array_H':
+        # rows as typed arrays of 16-bit items: iterables of ints like any other (their raw memory is 2 bytes per item)
+        import array
+        return [array.array('H', r) for r in rows]
     return [list(r) for r in rows]
 
 
@@ -352,6 +372,11 @@ def call_real(g, op):
         return g.gfx.set_sprite(a[0], _wrap_rows(a[1], a[4]), tile_x_offset=a[2], tile_y_offset=a[3])
     if name == 'get_sprite':
         return g.gfx.get_sprite(a[0], tile_width=a[1], tile_height=a[2])
+    if name == 'edit_sprite':
+        # read - change one pixel of the returned rows in place - write back
+        rows = g.gfx.get_sprite(a[0], tile_width=a[1], tile_height=a[2])
+        rows[a[3]][a[4]] = a[5]
+        return g.gfx.set_sprite(a[6], rows)
     if name == 'set_cell':
         return g.map.set_cell(a[0], a[1], a[2])
     if name == 'get_cell':
@@ -470,7 +495,7 @@ class History:
                                 % (where, len(diff), '; '.join(describe_diff(rname, i, mr[i], r[i])
                                                                for i in diff[:3])),
                                 self.case(), 'frame')
-        if name.startswith(('set_', 'clear_', 'reset_', 'sfx_set', 'music_set')) and cartgen.flat(self.twin) != bytes(self.mem):
+        if name.startswith(('set_', 'clear_', 'reset_', 'sfx_set', 'music_set', 'edit_')) and cartgen.flat(self.twin) != bytes(self.mem):
             raise Violation('%s on one cart changed the memory of a second cart made from it beforehand with '
                             'Section.from_bytes(section.to_bytes())' % where, self.case(), 'other-cart')
 
@@ -523,6 +548,11 @@ def op_labels(op):
             labs.append('sprite_offset')
         if y0 < 128 and y0 + h > 64:
             labs.append('sprite_in_shared_rows')
+    elif name == 'edit_sprite':
+        if a[0] // 16 + a[2] > 16:
+            labs.append('edit_sprite_over_bottom_edge')
+        if a[0] % 16 + a[1] > 16:
+            labs.append('edit_sprite_over_right_edge')
     elif name == 'get_sprite':
         sid, tw, th = a
         if sid % 16 + tw > 16:
@@ -605,7 +635,7 @@ def record_history(stats, seed, ops, labsets, sample_extra=None, kind='enumerate
 
 CROSS_PX = (0, 1, 2, 3, 5, 8, 20)
 CROSS_CELLS = (0, 1, 2, 5, 40, 70)
-WRAPS = ('list', 'bytearray', 'tuple', 'generator', 'iterators', 'reversed')
+WRAPS = ('list', 'bytearray', 'tuple', 'generator', 'iterators', 'reversed', 'array_H')
 
 
 def _offset(ch):
@@ -651,6 +681,13 @@ def dec_set_sprite(ch):
         else:
             rows.append([T if b & 1 else (b >> 1) & 15 for b in src])
     return ['set_sprite', row * 16 + col, rows, xo, yo, ch.pick(WRAPS)]
+
+
+def dec_edit_sprite(ch):
+    op = dec_get_sprite(ch)
+    tw, th = min(op[2], 4), min(op[3], 4)
+    dst = op[1] if ch.chance(128) else ch.below(256)
+    return ['edit_sprite', op[1], tw, th, ch.below(th * 8), ch.below(tw * 8), ch.below(16), dst]
 
 
 def dec_get_sprite(ch):
@@ -791,6 +828,7 @@ def dec_music_set_properties(ch):
 
 DECODERS = [
     ('set_sprite', dec_set_sprite), ('set_sprite_again', dec_set_sprite), ('get_sprite', dec_get_sprite),
+    ('edit_sprite', dec_edit_sprite),
     ('set_cell', dec_set_cell), ('get_cell', dec_get_cell),
     ('set_rect_tiles', dec_set_rect_tiles), ('set_rect_tiles_again', dec_set_rect_tiles),
     ('get_rect_tiles', dec_get_rect_tiles), ('get_rect_pixels', dec_get_rect_pixels),
@@ -877,7 +915,7 @@ def sprite_edge_histories(group, dseed):
                     if row == 15:
                         yo = min(yo, 8 - h)  # this group stays above the bottom edge
                     rows = _pixels(dseed, ('r', row, xo, beyond), w, h)
-                    yield [['set_sprite', row * 16 + 15, rows, xo, yo, WRAPS[(xo + beyond) % 6]],
+                    yield [['set_sprite', row * 16 + 15, rows, xo, yo, WRAPS[(xo + beyond) % 7]],
                            _shared_read_for_sprite(row * 8 + yo)]
     elif group == 1:
         for col in range(16):
@@ -890,7 +928,7 @@ def sprite_edge_histories(group, dseed):
                     if col == 15:
                         xo = min(xo, 8 - w)  # this group stays left of the right edge
                     rows = _pixels(dseed, ('b', col, yo, beyond), w, h)
-                    yield [['set_sprite', 240 + col, rows, xo, yo, WRAPS[(yo + beyond) % 6]],
+                    yield [['set_sprite', 240 + col, rows, xo, yo, WRAPS[(yo + beyond) % 7]],
                            _shared_read_for_sprite(y0)]
     else:
         for xo in (0, 3, 7, 8, 9):
@@ -900,7 +938,7 @@ def sprite_edge_histories(group, dseed):
                         w = max(1, 8 - xo + bx)
                         h = max(1, 8 - yo + by)
                         rows = _pixels(dseed, ('c', xo, yo, bx, by), w, h)
-                        yield [['set_sprite', 255, rows, xo, yo, WRAPS[(bx + by) % 6]],
+                        yield [['set_sprite', 255, rows, xo, yo, WRAPS[(bx + by) % 7]],
                                _shared_read_for_sprite(120 + yo)]
 
 
@@ -916,7 +954,7 @@ def map_edge_histories(group, dseed):
                         rows = [list(fill[j * w:(j + 1) * w]) for j in range(h)]
                         if w == 3 and h == 3:
                             rows[1] = rows[1][:1]  # ragged
-                        yield [['set_rect_tiles', rows, x, y, WRAPS[(w + h) % 6]],
+                        yield [['set_rect_tiles', rows, x, y, WRAPS[(w + h) % 7]],
                                ['get_rect_tiles', 120, max(0, min(y, 60) - 1), 10, 4]]
     elif group == 1:
         for x in xs:
